@@ -34,10 +34,10 @@ func Validate(namespaces []*Namespace) (*Environment, error) {
 		validateStreams,
 		buildSymbolTable,
 		resolveTypes,
-		validateMaps,
 		assignUnionCaseTags,
 		topologicalSortTypes,
 		convertGenericReferences,
+		validateMaps,
 		validateUnionCases,
 		validateEnums,
 		resolveComputedFields,
